@@ -104,9 +104,16 @@ Definition sys_rename (f : fs) (p q : path) : option fs :=
        os.rename(str(temp_filename), str(filename))                                # IRename
 
    Fixed (fixes/F11-atomic-write-keeps-mode.diff): only FileNotFoundError from stat and any OSError
-   from chown are tolerated; another stat error or a failing chmod propagates before the rename. *)
+   from chown are tolerated; another stat error or a failing chmod propagates before the rename.
+   Fixed2 (fixes/F11b-atomic-write-chown-before-chmod.diff, on top of F11): chown is called before
+   chmod, because a successful chown clears the set-uid / set-gid bits:
+       if st is not None:
+           try: os.chown(temp, -1, st.st_gid)
+           except OSError: pass
+           os.chmod(temp, st.st_mode) *)
 
-Inductive variant := Orig | Fixed.
+Inductive variant := Orig | Fixed | Fixed2.
+Definition chown_first (v : variant) : bool := match v with Fixed2 => true | _ => false end.
 Inductive instr := IOpen | IWrite (d : content) | IClose | IStat | IChmod | IChown | IRename.
 Inductive fault := NoFault | FaultENOENT | FaultOther.
 
@@ -118,8 +125,10 @@ Definition loc0 : plocal := mkLoc Run 0 None.
 Definition set_ctl (c : ctl) (l : plocal) : plocal := mkLoc c (poff l) (pst l).
 Definition set_st (s : option (N * N)) (l : plocal) : plocal := mkLoc (pctl l) (poff l) s.
 
-Definition tail5 : list instr := [IClose; IStat; IChmod; IChown; IRename].
-Definition prog (chunks : list content) : list instr := IOpen :: map IWrite chunks ++ tail5.
+Definition meta1 (v : variant) : instr := if chown_first v then IChown else IChmod.
+Definition meta2 (v : variant) : instr := if chown_first v then IChmod else IChown.
+Definition tail5 (v : variant) : list instr := [IClose; IStat; meta1 v; meta2 v; IRename].
+Definition prog (v : variant) (chunks : list content) : list instr := IOpen :: map IWrite chunks ++ tail5 v.
 (* write_file alone *)
 Definition prog_write_file (chunks : list content) : list instr := IOpen :: map IWrite chunks ++ [IClose].
 
@@ -158,7 +167,7 @@ Definition exec (v : variant) (e : env) (tmp : path) (s : fs * plocal) (x : inst
           | FaultOther, _ =>
               match v with
               | Orig => ((f, set_st None l), Some (CStat, false))
-              | Fixed => ((f, set_ctl Dead l), Some (CStat, false))
+              | _ => ((f, set_ctl Dead l), Some (CStat, false))
               end
           end
       | IChmod =>
@@ -170,7 +179,7 @@ Definition exec (v : variant) (e : env) (tmp : path) (s : fs * plocal) (x : inst
               | None =>
                   match v with
                   | Orig => ((f, set_st None l), Some (CChmod m, false))     (* except OSError: pass *)
-                  | Fixed => ((f, set_ctl Dead l), Some (CChmod m, false))
+                  | _ => ((f, set_ctl Dead l), Some (CChmod m, false))
                   end
               end
           end
